@@ -1,6 +1,6 @@
 ----------------------------- MODULE NewlineObs -----------------------------
 (* C08's newline clauses evaluated by TLC on outputs of the REAL               *)
-(* apply_newline_style (export hook).  Record: {text, win, unix, auto_out,     *)
+(* apply_newline_style (export hook).  Record: {text, win, unix, auto_out, native,*)
 (* raw} -- sequences over {"c","cr","lf"}; auto_out = Auto applied with `raw`  *)
 EXTENDS NewlineCore, IOUtils
 Rec == ndJsonDeserialize(IOEnv.TRACE)
@@ -15,10 +15,12 @@ UnixOK == Producible(R.text) => (NoCRLF(R.unix) /\ Content(R.unix, 1) = Content(
 AutoOK == LET want == IF Auto(R.raw) = "windows" THEN "windows" ELSE "unix" IN
           Producible(R.text) =>
              IF want = "windows" THEN AllCRLF(R.auto_out) ELSE NoCRLF(R.auto_out)
+(* Native is the style of the platform the formatter runs on, whatever the input looks like *)
+NativeOK == ("native" \in DOMAIN R) => (R.native = IF R.windows_host THEN R.win ELSE R.unix)
 AsModel == R.win = ToWin(R.text, 1) /\ R.unix = ToUnix(R.text, 1) /\ R.auto_out = Apply("auto", R.text, R.raw)
 ReportInv ==
-  LET F == {n \in {"WindowsOK", "UnixOK", "AutoOK", "AsModel"} :
-              ~(CASE n = "WindowsOK" -> WindowsOK [] n = "UnixOK" -> UnixOK [] n = "AutoOK" -> AutoOK
+  LET F == {n \in {"WindowsOK", "UnixOK", "AutoOK", "NativeOK", "AsModel"} :
+              ~(CASE n = "WindowsOK" -> WindowsOK [] n = "NativeOK" -> NativeOK [] n = "UnixOK" -> UnixOK [] n = "AutoOK" -> AutoOK
                   [] n = "AsModel" -> AsModel)}
   IN F = {} \/ PrintT(ToJson([tag |-> "FAIL", l |-> l, fails |-> F]))
 =============================================================================
